@@ -20,6 +20,7 @@ type RSchema struct {
 	pattern       string
 	compileOnce   sync.ErrOnce
 	generatorOnce sync.ErrOnceWithValue[*reggen.Generator]
+	exampleOnce   sync.ErrOnceWithValue[[]byte]
 	generatorSeed int64
 }
 
@@ -76,7 +77,18 @@ func (s *RSchema) Example() ([]byte, error) {
 	return s.generateExample()
 }
 
+// generateExample returns the same example on every call: the generator keeps
+// advancing its random sequence, so without the memo a second Example() on the
+// same schema returned a different string.
 func (s *RSchema) generateExample() ([]byte, error) {
+	ex, err := s.exampleOnce.Do(s.generateExampleOnce)
+	if err != nil {
+		return nil, err
+	}
+	return append([]byte(nil), ex...), nil
+}
+
+func (s *RSchema) generateExampleOnce() ([]byte, error) {
 	g, err := s.generatorOnce.Do(func() (*reggen.Generator, error) {
 		g, err := reggen.NewGenerator(s.pattern)
 		if err != nil {
